@@ -194,6 +194,7 @@ def parse_type(s, classes=None):
     if head in ("list", "deque"): return ListT(ts[0], head)
     if head == "seq": t = SeqT(ts[0]); register_sort(t.sort); return t
     if head == "set": return SetT(ts[0])
+    if head == "setv": return SetVT(ts[0])
     if head == "dict": return DictT(ts[0], ts[1])
     if head == "odict": return DictT(ts[0], ts[1], ordered=True)
     if head == "tuple": t = TupT(ts); register_sort(t.sort); return t
@@ -203,6 +204,6 @@ def parse_type(s, classes=None):
 
 class SV:
     """Symbolic value: z3 term + type."""
-    __slots__ = ("v", "ty")
-    def __init__(self, v, ty): self.v, self.ty = v, ty
+    __slots__ = ("v", "ty", "py")
+    def __init__(self, v, ty, py=None): self.v, self.ty, self.py = v, ty, py
     def __repr__(self): return "SV(%s:%s)" % (self.v, self.ty)
